@@ -66,9 +66,9 @@ def _call_periodic(loop, name, interval, callback):
 
     return periodic
 '''
-_CALL_PLAIN = "        r = fn()"
+_CALL_PLAIN = "        r = %sfn()%s"
 _CALL_TRY = '''        try:
-            r = fn()
+            r = %sfn()%s
         except%s:
             handle.delegate = None
             raise'''
@@ -78,6 +78,14 @@ _REARM_LATER = "                handle.delegate = loop.call_later(interval - ((l
 _REARM_MONO = '''                n = max(n + 1, int((loop.time() - start) // interval) + 1)
                 handle.delegate = loop.call_at(start + n * interval, run, handle)'''
 
+_IS_TRUE_SRC = '''
+def _is_true(r):
+    if is_empty(r):
+        return False
+    if getattr(r, "ndim", 0) > 0:
+        return True
+    return bool(r != 0)
+'''
 _CANCEL_SRC = '''
 def cancel(self):
     if self.delegate is None:
@@ -241,22 +249,23 @@ def _norm_src(src):
 
 def _periodic_variants():
     out = {}
-    for guard, mono in itertools.product((False, True), repeat=2):
+    for guard, mono, truth in itertools.product((False, True), repeat=3):
+        wrap = ("_is_true(", ")") if truth else ("", "")
         for clear, exc in ((False, None), (True, ""), (True, " BaseException"), (True, " Exception")):
             src = _PERIODIC_TMPL % {
                 "ninit": "    n = 1" if mono else "",
                 "nonlocal": "        nonlocal n" if mono else "",
-                "call": (_CALL_TRY % exc) if clear else _CALL_PLAIN,
+                "call": (_CALL_TRY % (wrap + (exc,))) if clear else (_CALL_PLAIN % wrap),
                 "guard": _GUARD if guard else "",
                 "rearm": _REARM_MONO if mono else (_REARM_LATER % ()),
             }
-            out[_norm_src(src)] = (guard, clear, mono)
+            out[_norm_src(src)] = (guard, clear, mono, truth)
     return out
 
 
 def read_flags():
     """-> dict(shape_ok, guard, clear, mono, resolve, why)"""
-    res = {"shape_ok": False, "guard": False, "clear": False, "mono": False, "resolve": False, "why": []}
+    res = {"shape_ok": False, "guard": False, "clear": False, "mono": False, "truth": False, "resolve": False, "why": []}
 
     def timer_side():
         m = astlib.module("klongpy/sys_fn_timer.py")
@@ -264,6 +273,10 @@ def read_flags():
         got = _periodic_variants().get(norm(per))
         if got is None:
             raise ShapeError("_call_periodic / run is none of the accepted shapes")
+        if got[3]:
+            # the truth test is applied inside the try, so a failure of the test itself also clears the delegate
+            if norm(astlib.find_func(m, "_is_true")) != _norm_src(_IS_TRUE_SRC):
+                raise ShapeError("_is_true changed")
         cls = astlib.find_class(m, "KGTimerHandler")
         if norm(astlib.find_func(cls, "cancel")) != _norm_src(_CANCEL_SRC):
             raise ShapeError("KGTimerHandler.cancel changed")
@@ -278,17 +291,47 @@ def read_flags():
     def wrapper_side():
         m = astlib.module("klongpy/types.py")
         cls = astlib.find_class(m, "KGFnWrapper")
-        for name, srcs in (("__init__", (_WRAP_INIT_SRC,)), ("_find_symbol", (_WRAP_FIND_SRC,)),
-                           ("__call__", (_WRAP_CALL_SRC, _WRAP_CALL_SRC2))):
+        for name, srcs in (("__init__", (_WRAP_INIT_SRC,)), ("_find_symbol", (_WRAP_FIND_SRC,))):
             if norm(astlib.find_func(cls, name)) not in [_norm_src(src) for src in srcs]:
                 raise ShapeError("KGFnWrapper.%s changed" % name)
+        # __call__ is edited by other repairs (argument conversion, KeyError handling); what the property needs from it,
+        # read as features: the symbol is looked up in the context on EVERY call (nothing cached on self), under
+        # `if self._sym is not None`, and the looked-up function's body is what gets called
+        call = astlib.find_func(cls, "__call__")
+        if norm(call) not in (_norm_src(_WRAP_CALL_SRC), _norm_src(_WRAP_CALL_SRC2)):
+            for n in ast.walk(call):
+                if isinstance(n, (ast.Assign, ast.AugAssign, ast.AnnAssign)):
+                    tg = n.targets if isinstance(n, ast.Assign) else [n.target]
+                    if any(isinstance(t, ast.Attribute) for t in tg) or any(isinstance(t, ast.Subscript) for t in tg):
+                        raise ShapeError("KGFnWrapper.__call__ stores state")
+                if isinstance(n, ast.Call) and isinstance(n.func, ast.Name) and n.func.id in ("setattr", "getattr", "hasattr"):
+                    raise ShapeError("KGFnWrapper.__call__ uses reflection")
+            body = astlib.body_no_doc(call)
+            if not (body and isinstance(body[0], ast.If) and ast.unparse(body[0].test) == "self._sym is not None" and not body[0].orelse):
+                raise ShapeError("KGFnWrapper.__call__ does not start with `if self._sym is not None`")
+            looked = None
+            for n in ast.walk(body[0]):
+                if isinstance(n, ast.Assign) and ast.unparse(n.value) == "self.klong._context[self._sym]" \
+                        and len(n.targets) == 1 and isinstance(n.targets[0], ast.Name):
+                    looked = n.targets[0].id
+            if looked is None:
+                raise ShapeError("KGFnWrapper.__call__ has no lookup self.klong._context[self._sym]")
+            rets = [n for n in ast.walk(body[0]) if isinstance(n, ast.Return) and n.value is not None
+                    and ast.unparse(n.value).startswith("self.klong.call(KGCall(%s.a," % looked)]
+            if not rets:
+                raise ShapeError("KGFnWrapper.__call__ does not call the looked-up function")
+            stores = [n for n in ast.walk(call) if isinstance(n, ast.Name) and isinstance(n.ctx, ast.Store) and n.id == looked]
+            for st in stores:
+                par = [a for a in ast.walk(call) if isinstance(a, ast.Assign) and st in a.targets]
+                if not par or ast.unparse(par[0].value) not in ("self.klong._context[self._sym]", "None"):
+                    raise ShapeError("KGFnWrapper.__call__ binds the looked-up name to something else")
         return True
 
     t, why = astlib.try_flag(timer_side)
     if t is None:
         res["why"].append(why)
     else:
-        res["guard"], res["clear"], res["mono"] = t
+        res["guard"], res["clear"], res["mono"], res["truth"] = t
     w, why = astlib.try_flag(wrapper_side)
     if w is None:
         res["why"].append(why)
@@ -307,6 +350,7 @@ def generate():
     out.append("Definition gen_guard : bool := %s." % astlib.coq_bool(f["guard"]))
     out.append("Definition gen_clear : bool := %s." % astlib.coq_bool(f["clear"]))
     out.append("Definition gen_mono : bool := %s." % astlib.coq_bool(f["mono"]))
+    out.append("Definition gen_truth : bool := %s." % astlib.coq_bool(f["truth"]))
     out.append("Definition gen_resolve : bool := %s." % astlib.coq_bool(f["resolve"]))
     return "\n".join(out) + "\n"
 
@@ -344,6 +388,9 @@ class VLoop:
 
     def time(self):
         return self.now
+
+    def cur_when(self):
+        return self.cur.when
 
     def advance(self, d):
         if d > 0:
@@ -393,6 +440,72 @@ class VLoop:
         return True
 
 
+import asyncio
+import selectors
+
+
+class _VSelector(selectors.SelectSelector):
+    """selector of RLoop: never polls; a select() that would block moves the virtual clock to the earliest deadline (+ latency)"""
+    loop = None
+
+    def select(self, timeout=None):
+        lp = self.loop
+        if lp._ready or lp._stopping:
+            return []
+        if not lp._scheduled:
+            lp.idle = True
+            return []
+        lat = lp.lats.pop(0) if lp.lats else 0
+        lp.now = max(lp.now, lp._scheduled[0]._when + lat)
+        return []
+
+
+class RLoop(asyncio.SelectorEventLoop):
+    """The REAL asyncio event loop (BaseEventLoop._run_once, call_soon, call_at, call_later, heapq of TimerHandle,
+    TimerHandle.cancel, _clock_resolution) on a virtual clock: time() is overridden and the selector does not sleep.
+    Callbacks are wrapped only to remember the deadline of the handle being run."""
+
+    def __init__(self, t0, res, lats):
+        sel = _VSelector()
+        super().__init__(sel)
+        sel.loop = self
+        self.now = t0
+        self._clock_resolution = res
+        self.lats = list(lats)
+        self.idle = False
+        self.errors = []
+        self._when = None
+        self.tie = False
+        self.set_exception_handler(lambda lp, ctx: self.errors.append(type(ctx.get("exception")).__name__))
+
+    def time(self):
+        return self.now
+
+    def cur_when(self):
+        return self._when
+
+    def advance(self, d):
+        if d > 0:
+            self.now += d
+
+    def _enter(self, when, cb, args):
+        self._when = when
+        cb(*args)
+
+    def call_soon(self, cb, *args, context=None):
+        return super().call_soon(self._enter, self.now, cb, args, context=context)
+
+    def call_at(self, when, cb, *args, context=None):
+        if any(h._when == when for h in self._scheduled):
+            self.tie = True          # heapq gives no order among equal deadlines: such a case is judged by the checker only
+        return super().call_at(when, self._enter, when, cb, args, context=context)
+
+    def run_once(self):
+        self.idle = False
+        self._run_once()
+        return not self.idle
+
+
 def units(x):
     """clock value -> integer number of 2^-20 s (exact), or a marker when it is not such a value"""
     f = Fraction(x) * U
@@ -419,6 +532,17 @@ def _interp():
     return _klong
 
 
+# codes of callback results (coq/C15/Run.v retv_of) and their Klong truth (0, [] and "" are false)
+KLONG_TRUE = [False, True, True, True, False, True, False, True, False, True, True, True, True, True]
+
+
+def retvalue(code):
+    import numpy as np
+    from klongpy.core import KGSym
+    return [0, 1, 2, -1, 0.0, 1.5, "", "a", np.array([]), np.array([0]), np.array([1]), np.array([1, 2]), np.array([0, 0]),
+            KGSym("s")][code]
+
+
 class ScriptRaise(Exception):
     pass
 
@@ -433,10 +557,14 @@ class NotATimer:
 NONHANDLERS = [0, "t0", NotATimer(), None]
 
 
-def impl_run(case):
-    """Run one experiment on the real timer code.  -> (events, delegates, info)"""
+def impl_run(case, real=False):
+    """Run one experiment on the real timer code, under VLoop or (real=True) under asyncio's own loop on a virtual clock.
+    -> (events, delegates, info)"""
     from klongpy.sys_fn_timer import eval_sys_fn_timer, eval_sys_fn_cancel_timer, KGTimerHandler
-    loop = VLoop(case["t0"] / U, case["res"] / U, bool(case["lifo"]), [l / U for l in case["lats"]])
+    if real:
+        loop = RLoop(case["t0"] / U, case["res"] / U, [l / U for l in case["lats"]])
+    else:
+        loop = VLoop(case["t0"] / U, case["res"] / U, bool(case["lifo"]), [l / U for l in case["lats"]])
     named = case["mode"] == "klong"
     klong = _interp()
     klong['.system'] = {'klongloop': loop}
@@ -450,44 +578,38 @@ def impl_run(case):
         r = eval_sys_fn_cancel_timer(x)
         trace.append([3, j, units(loop.now), int(r)])
 
+    # klongpy puts `name::value` issued inside a function into the innermost scope when the name exists nowhere, so a
+    # callback cannot re-create a deleted global: really delete (KeyError path of the wrapper) only in experiments
+    # without later redefinitions, otherwise rebind the name to a number (not-a-function path)
+    steps_all = [q for (_, _, stp) in case["timers"] for q in stp] + [q for (_, stp) in case.get("pool", []) for q in stp]
+    hard_delete = not any(q[2] == 2 for q in steps_all) and not any(e[1] == 1 for e in case["exts"])
+    bound = {}          # the harness' own record of what it bound to each callback name
+    captured = {}       # ... and of what was bound when it created timer k
+
     def redefine(k):
         v = st["nver"]
         st["nver"] += 1
         if named:
             klong('cb%d::{tick(%d;%d)}' % (k, k, v))
+        bound[k] = v
         trace.append([4, k, v])
 
-    def tick(x, y):
-        i, v = int(x), int(y)
-        step = scripts[i].pop(0) if scripts[i] else (0, 0, 0, 0)
-        dur, ret, act, arg = step
-        trace.append([1, i, units(loop.now), units(loop.cur.when), v])
-        loop.advance(dur / U)
-        if act == 1:
-            timerc(arg)
-        elif act == 2:
-            redefine(arg)
-        elif act == 3:
-            trace.append([2, i, units(loop.now), 2])
-            raise ScriptRaise("scripted")
-        trace.append([2, i, units(loop.now), 0 if ret else 1])
-        return 1 if ret else 0
+    def undefine(k):
+        # no function under the name any more: deleted, or rebound to a number.  Calls through the wrapper of
+        # timer k must now run the function object captured at .timer time
+        if named:
+            from klongpy.core import KGSym
+            if hard_delete and klong._context.is_defined_sym(KGSym('cb%d' % k)):
+                del klong['cb%d' % k]
+            else:
+                klong('cb%d::5' % k)
+        bound[k] = None
+        trace.append([4, k, captured.get(k, 0)])
 
-    def ext(kind, idx):
-        if kind == 0:
-            timerc(idx)
-        else:
-            redefine(idx)
-
-    _current["tick"] = tick
-    if named:
-        for k in range(6):
-            klong('cb%d::{tick(%d;0)}' % (k, k))
-    for (t, kind, idx) in case["exts"]:
-        loop.call_at(t / U, ext, kind, idx)
     info = {"refused": 0}
-    for (gap, y, steps) in case["timers"]:
-        loop.advance(gap / U)
+    pool = [(y, [tuple(q) for q in steps]) for (y, steps) in case.get("pool", [])]
+
+    def create(y, steps):
         i = len(th)
         if named:
             h = klong('.timer("t%d";%d;cb%d)' % (i, y, i))
@@ -497,12 +619,51 @@ def impl_run(case):
             if not isinstance(h, str):
                 raise RuntimeError("negative interval accepted")
             info["refused"] += 1
-            continue
+            return
         if not isinstance(h, KGTimerHandler):
             raise RuntimeError(".timer returned %r" % (h,))
         th.append(h)
-        scripts.append([tuple(s) for s in steps])
+        captured[i] = bound.get(i, 0) or 0
+        scripts.append([tuple(q) for q in steps])
         trace.append([0, i, units(loop.now), units(h.interval)])
+
+    def tick(x, y):
+        i, v = int(x), int(y)
+        step = scripts[i].pop(0) if scripts[i] else (0, 0, 0, 0)
+        dur, ret, act, arg = step
+        trace.append([1, i, units(loop.now), units(loop.cur_when()), v])
+        loop.advance(dur / U)
+        if act == 1:
+            timerc(arg)
+        elif act == 2:
+            redefine(arg)
+        elif act == 3:
+            trace.append([2, i, units(loop.now), 2])
+            raise ScriptRaise("scripted")
+        elif act == 4 and pool:
+            create(*pool.pop(0))
+        elif act == 5:
+            undefine(arg)
+        trace.append([2, i, units(loop.now), 0 if KLONG_TRUE[ret] else 1])
+        return retvalue(ret)
+
+    def ext(kind, idx):
+        if kind == 0:
+            timerc(idx)
+        elif kind == 1:
+            redefine(idx)
+        else:
+            undefine(idx)
+
+    _current["tick"] = tick
+    if named:
+        for k in range(10):
+            klong('cb%d::{tick(%d;0)}' % (k, k))
+    for (t, kind, idx) in case["exts"]:
+        loop.call_at(t / U, ext, kind, idx)
+    for (gap, y, steps) in case["timers"]:
+        loop.advance(gap / U)
+        create(y, steps)
     idle = False
     for _ in range(case["fuel"]):
         if not loop.run_once():
@@ -511,13 +672,17 @@ def impl_run(case):
             break
     info["errors"] = list(loop.errors)
     info["idle"] = idle
+    if real:
+        info["tie"] = loop.tie
+        loop.close()
     return trace, [int(h.delegate is not None) for h in th], info
 
 
 def model_req(case, flags):
-    return sx(["run", [int(flags[0]), int(flags[1]), int(flags[2]), int(flags[3])], [case["res"], case["lifo"]], case["t0"],
+    return sx(["run", [int(f) for f in flags], [case["res"], case["lifo"]], case["t0"],
                [list(e) for e in case["exts"]],
                [[gap, y * U, [list(s) for s in steps]] for (gap, y, steps) in case["timers"]],
+               [[y * U, [list(s) for s in steps]] for (y, steps) in case.get("pool", [])],
                list(case["lats"]), case["fuel"]])
 
 
@@ -571,26 +736,46 @@ def random_case(rng, named, big=False):
         for _ in range(n):
             d = rng.choice(dur_values(y) + [1, res - 1, res, rng.randint(0, 3 * U)])
             r = 1 if rng.random() < 0.75 else 0
+            if rng.random() < 0.12:
+                r = rng.randint(2, 13)
             p = rng.random()
-            if p < 0.55:
+            if p < 0.06:
+                a, g = 4, 0
+            elif p < 0.55:
                 a, g = 0, 0
             elif p < 0.70:
                 a, g = 1, i
             elif p < 0.82:
                 a, g = 1, rng.randint(0, nt + 3)
-            elif p < 0.92:
+            elif p < 0.87:
                 a, g = (2, rng.randint(0, nt - 1)) if named else (0, 0)
+            elif p < 0.92:
+                a, g = (5, rng.randint(0, nt - 1)) if named else (0, 0)
             else:
                 a, g = 3, 0
             steps.append((d, r, a, g))
         gap = rng.choice([0, 0, 1, U // 2, U, rng.randint(0, 2 * U)])
         timers.append((gap, y, steps))
+    # a name may only be unbound if its timer exists from the start (.timer of an unbound name is an error, not a timer)
+    nvalid = sum(1 for (_, y, _) in timers if y >= 0)
+    timers = [(g, y, [((d, r, 0, 0) if (a == 5 and (nvalid == 0 or ag >= nvalid)) else (d, r, a, ag)) for (d, r, a, ag) in st])
+              for (g, y, st) in timers]
+    pool = []
+    if any(q[2] == 4 for (_, _, st) in timers for q in st):
+        for _ in range(rng.randint(0, 2)):
+            y = rng.choice(INTERVALS) if rng.random() > 0.05 else -1
+            pool.append((y, [(rng.choice(dur_values(y)), rng.choice([0, 1, 1, 1, 9, 11]), rng.choice([0, 0, 0, 1, 4]),
+                              rng.randint(0, nt + 2)) for _ in range(rng.randint(0, 4))]))
     t0 = rng.choice([0, 7, 10 * U, 10 * U + 3, rng.randint(0, 1000 * U)])
     exts = []
     for _ in range(rng.choice([0, 0, 1, 2, 3])):
         t = t0 + rng.choice([0, U, 2 * U, 3 * U - 1, 5 * U, rng.randint(0, 12 * U), 2 * U + res // 2, 2 * U - res // 2])
         if named and rng.random() < 0.4:
-            exts.append((t, 1, rng.randint(0, nt - 1)))
+            kind = rng.choice([1, 1, 2])
+            idx = rng.randint(0, nt - 1)
+            if kind == 2 and idx >= nvalid:
+                kind = 1
+            exts.append((t, kind, idx))
         else:
             exts.append((t, 0, rng.randint(0, nt + 3)))
     lats = []
@@ -607,7 +792,7 @@ def random_case(rng, named, big=False):
         else:
             lats.append(rng.randint(U, 7 * U))
     return {"mode": "klong" if named else "py", "res": res, "lifo": int(rng.random() < 0.3), "t0": t0, "exts": exts,
-            "timers": timers, "lats": lats, "fuel": rng.choice([3, 10, 40, 40, 40]), "kind": "random"}
+            "timers": timers, "pool": pool, "lats": lats, "fuel": rng.choice([3, 10, 40, 40, 40]), "kind": "random"}
 
 
 # the witnesses of the three defect classes of DESIGN 0 / R9 (also proved as ..._refuted in Properties.v)
@@ -623,10 +808,38 @@ WITNESS = {
 }
 
 
+WITNESS["truth-list"] = {"mode": "py", "res": 1024, "lifo": 0, "t0": 0, "exts": [(5 * U, 0, 0)],
+                         "timers": [(0, 1, [(0, 11, 0, 0), (0, 0, 0, 0)])], "lats": [], "fuel": 8, "kind": "witness-truth"}
+WITNESS["truth-zero-list"] = {"mode": "klong", "res": 1024, "lifo": 0, "t0": 0, "exts": [],
+                              "timers": [(0, 1, [(0, 9, 0, 0), (0, 0, 0, 0)])], "lats": [], "fuel": 8, "kind": "witness-truth"}
+WITNESS["truth-empty"] = {"mode": "py", "res": 1024, "lifo": 0, "t0": 0, "exts": [(5 * U, 0, 0)],
+                          "timers": [(0, 1, [(0, 8, 0, 0)])], "lats": [], "fuel": 8, "kind": "witness-truth"}
+WITNESS["undef"] = {"mode": "klong", "res": 1024, "lifo": 0, "t0": 0, "exts": [(3 * U + U // 2, 1, 0)],
+                    "timers": [(0, 1, [(0, 1, 2, 0), (0, 1, 5, 0), (0, 1, 0, 0), (0, 1, 0, 0), (0, 0, 0, 0)])],
+                    "lats": [], "fuel": 12, "kind": "witness-undef"}
+WITNESS["spawn"] = {"mode": "klong", "res": 1024, "lifo": 0, "t0": 0, "exts": [],
+                    "timers": [(0, 1, [(0, 1, 4, 0), (0, 1, 1, 1), (0, 0, 0, 0)])], "pool": [(2, [(0, 1, 0, 0), (0, 1, 0, 0)])],
+                    "lats": [], "fuel": 12, "kind": "witness-spawn"}
+
+
+def retval_cases(named):
+    """every kind of callback result, alone and followed by a second tick, on and off the boundary"""
+    for y in (0, 1):
+        for code in range(14):
+            for act in (0, 1):
+                for lat in (0, 3):
+                    yield {"mode": "klong" if named else "py", "res": 1024, "lifo": 0, "t0": 5, "exts": [(6 * U, 0, 0)],
+                           "timers": [(0, y, [(0, code, act, 0), (U // 2, code, 0, 0), (0, 0, 0, 0)])], "lats": [lat] * 4, "fuel": 12,
+                           "kind": "retval-%d" % code}
+
+
 def build_cases(chk, rng):
     """generator of all cases of a run"""
     for c in WITNESS.values():
         yield c
+    for named in (False, True):
+        for c in retval_cases(named):
+            yield c
     for c in single_cases(chk.tier, False):
         yield c
     for c in single_cases(chk.tier, True):
@@ -685,26 +898,34 @@ def check_validate(chk):
 
 
 # =============================================================================== evaluation
-def evaluate(chk, cases, flags, with_model=True):
-    """-> list of dict(case, trace, deleg, info, model, oracle, strict)"""
-    impl = []
-    for c in cases:
-        try:
-            tr, dl, info = impl_run(c)
-        except Exception as e:  # the harness itself could not drive the code: report as a behaviour difference
-            tr, dl, info = [["crash", type(e).__name__, str(e)[:200]]], [], {"errors": [], "idle": False, "refused": 0}
-        impl.append((tr, dl, info))
+def _try_run(c, real):
+    try:
+        return impl_run(c, real=real)
+    except Exception as e:  # the harness itself could not drive the code: report as a behaviour difference
+        return [["crash", type(e).__name__, str(e)[:200]]], [], {"errors": [], "idle": False, "refused": 0, "tie": False}
+
+
+def evaluate(chk, cases, flags, with_model=True, real_every=0):
+    """-> list of dict(case, trace, deleg, info, model, oracle, strict [, real, real_oracle])
+    real_every = k > 0: every k-th case is also run under asyncio's own loop (RLoop)"""
+    impl = [_try_run(c, False) for c in cases]
+    real = {}
+    if real_every:
+        for k in range(0, len(cases), real_every):
+            real[k] = _try_run(cases[k], True)
     reqs = []
-    for c, (tr, dl, info) in zip(cases, impl):
+    for k, (c, (tr, dl, info)) in enumerate(zip(cases, impl)):
         if with_model:
             reqs.append(model_req(c, flags))
         if exact(tr):
             reqs.append(mon_req(0, c, tr))
             reqs.append(mon_req(1, c, tr))
+        if k in real and exact(real[k][0]):
+            reqs.append(mon_req(0, c, real[k][0]))
     outs = iter(chk.run_model(reqs))
     res = []
-    for c, (tr, dl, info) in zip(cases, impl):
-        r = {"case": c, "trace": tr, "deleg": dl, "info": info, "model": None, "oracle": None, "strict": None}
+    for k, (c, (tr, dl, info)) in enumerate(zip(cases, impl)):
+        r = {"case": c, "trace": tr, "deleg": dl, "info": info, "model": None, "oracle": None, "strict": None, "real": None}
         if with_model:
             r["model"] = next(outs)
         if exact(tr):
@@ -712,6 +933,9 @@ def evaluate(chk, cases, flags, with_model=True):
             r["strict"] = next(outs)
         else:
             r["oracle"] = r["strict"] = ["fail", -1]
+        if k in real:
+            r["real"] = real[k]
+            r["real_oracle"] = next(outs) if exact(real[k][0]) else ["fail", -1]
         res.append(r)
     return res
 
@@ -738,7 +962,8 @@ def replay_obj(r, which):
     return {"case": r["case"], "units_per_second": U, "observed_history": r["trace"],
             "first_rejected_event_index": k,
             "first_rejected_event": describe_event(r["trace"][k]) if isinstance(k, int) and 0 <= k < len(r["trace"]) else None,
-            "loop_errors": r["info"].get("errors"), "checker": "Spec.mon_run strict=%s" % (which == "strict")}
+            "loop_errors": r["info"].get("errors"), "checker": "Spec.mon_run strict=%s" % (which == "strict"),
+            "event_loop": r.get("under", "harness VLoop")}
 
 
 def early_only(r):
@@ -760,16 +985,17 @@ def run(tier, replay=None):
     fl = chk.run_model(["(flags)"])[0]
     flags = tuple(bool(x) for x in fl)
     src = read_flags()
-    if flags != (src["guard"], src["clear"], src["mono"], src["resolve"]):
+    if flags != (src["guard"], src["clear"], src["mono"], src["truth"], src["resolve"]):
         raise RuntimeError("extracted model was not built from the current Generated.v")
 
     bad_prop = None
     bad_corr = None
+    bad_real = None
     seen = set()
     n_early = 0
     bad_val = check_validate(chk)
     for cases in batches(build_cases(chk, rng), 20000):
-      for r in evaluate(chk, cases, flags):
+      for r in evaluate(chk, cases, flags, real_every=8):
         c = r["case"]
         chk.count("evaluations")
         chk.count("cases_" + c["kind"].split("-")[0] + "_" + c["mode"])
@@ -796,6 +1022,18 @@ def run(tier, replay=None):
         ok = m[0] == "ok" and m[1] == r["trace"] and m[2] == r["deleg"]
         if not ok and bad_corr is None:
             bad_corr = r
+        if r["real"] is not None:
+            # the same experiment under asyncio's own _run_once / heap / TimerHandle on a virtual clock
+            chk.count("real_loop_cases")
+            rt, rd, ri = r["real"]
+            if r["real_oracle"] != ["ok"]:
+                if bad_prop is None:
+                    bad_prop = dict(r, trace=rt, deleg=rd, info=ri, oracle=r["real_oracle"], under="asyncio.SelectorEventLoop on a virtual clock")
+                continue
+            if ri.get("tie") or c["lifo"]:
+                chk.count("real_loop_equal_deadlines_checker_only")
+            elif (rt != r["trace"] or rd != r["deleg"]) and bad_real is None:
+                bad_real = r
         if c["kind"] == "random":
             chk.sample({"timers": c["timers"], "exts": c["exts"], "lats": c["lats"][:6], "res": c["res"], "mode": c["mode"],
                         "history": r["trace"][:10]}, limit=3)
@@ -808,7 +1046,7 @@ def run(tier, replay=None):
         ro = replay_obj(bad_prop, "oracle")
         chk.violation("timer history rejected by the property checker: %s" % (ro["first_rejected_event"] or "inexact clock value"), ro)
     else:
-        need_search = bad_corr is not None or bad_val is not None or not proof["ok"]
+        need_search = bad_corr is not None or bad_real is not None or bad_val is not None or not proof["ok"]
         found = None
         if need_search:
             # wider sweep, property oracle only
@@ -826,6 +1064,11 @@ def run(tier, replay=None):
         elif bad_val is not None:
             chk.violation("argument checks of eval_sys_fn_timer differ from Model.timer_validate; no history rejected by the property checker in %d cases"
                           % chk.counters.get("evaluations", 0), {"broken": "correspondence C15/Model.v timer_validate", "detail": bad_val}, no_input=True)
+        elif bad_real is not None:
+            chk.violation("harness VLoop and asyncio's own event loop (virtual clock) schedule the same experiment differently; "
+                          "no history rejected by the property checker in %d cases" % chk.counters.get("evaluations", 0),
+                          {"broken": "correspondence VLoop / asyncio.BaseEventLoop._run_once", "case": bad_real["case"],
+                           "vloop_history": bad_real["trace"], "asyncio_history": bad_real["real"][0]}, no_input=True)
         elif bad_corr is not None:
             m = bad_corr["model"]
             chk.violation("correspondence between klongpy and the Coq model broke; no history rejected by the property checker in %d cases"
